@@ -24,6 +24,15 @@ FULL STATEMENT (false on the pinned tree, kept as the goal):
 
 What the pinned code (after the `fixes/C07-*` patches) does satisfy is proved below, what it does not is
 proved as negation witnesses which the harness replays on the real interpreter (known findings).
+
+After the second round of repairs (`fixes/C07-1-*` … `C07-6-*`) `C07_paths_agree` holds at full strength on every
+`->`, dynamic-name, `A::m()`, `self::m()`, `static::m()`, `unset($o->p)` and `foreach` arm (`C07_lexical_exact`,
+`C07_known_exact_arms`, instantiated for the regenerated table in `C07_generated_exact_paths`) and
+`C07_types_exact_at_every_boundary` on eleven of the thirteen boundaries (`C07_generated_exact_boundaries`);
+what keeps the two full statements false is `A::$p` / `self::$p` / `static::$p` (modifier and declared type of a
+static property are lost when the class is parsed), the return type of closures (dropped), and the index paths
+`$o['p']`, which are sound but refuse more than PHP's rule. The witnesses of the repaired defects are kept
+against the table as it was (`pinnedBefore`), next to the proof that the same sites are now refused.
 -/
 namespace C07
 open Model.Access Model.Types Spec.Access Spec.Types Proofs.Access Proofs.AccessTypes Proofs.AccessKnown
@@ -80,7 +89,81 @@ theorem C07_this_protected_sound (H : Hier) (s : Site) (wf : WfSite H s) (hr : s
   rw [hm]
   exact ⟨l, hl, Sub.linear hcl wf.objDecl⟩
 
-/-! ## the hierarchy test is exact where the context is the lexical class and the target the declaring class -/
+/-! ## the lexical test is exact: `private` = declaring class only, `protected` = declaring class, descendants, ancestors -/
+
+/-- **C07_lexical_exact.** (`C07_paths_agree`, full strength, for every arm that tests both modifiers with
+`canAccessProperty` / `canAccessMethod` / `canAccessMember`.) On such an arm the decision of the access path
+as coded IS PHP's visibility rule on (class whose text contains the access, class that declares the member):
+for every hierarchy, every site — inherited methods, closures, `$this` or another object, code of ancestors,
+descendants, siblings, unrelated classes, code outside every class — and every modifier. No hypothesis about the
+site is needed any more (compare `C07_hier_exact_partial`); `hc` only says that `self::` / `static::` stand in
+class code. -/
+theorem C07_lexical_exact (T : Table) (H : Hier) (s : Site) (hd : NoDangling H) (nc : Bool)
+    (hT : T s.path s.recv = .lexical true true nc) (hc : nc = true → s.ctx.isSome)
+    (hns : decide T H s ≠ .stuck) :
+    decide T H s = .allowed ↔ allowed H s.m s.lex s.decl := by
+  unfold Model.Access.decide at hns ⊢
+  rw [hT] at hns ⊢
+  have hcond : (nc && s.ctx.isNone) = false := by
+    cases nc with
+    | false => rfl
+    | true =>
+      have := hc rfl
+      cases hx : s.ctx with
+      | none => rw [hx] at this; cases this
+      | some _ => rfl
+  simp only [decideCheck, hcond, Bool.false_eq_true, if_false] at hns ⊢
+  cases hm : s.m with
+  | pub => simp [guarded, allowed]
+  | prot =>
+    simp only [hm, guarded, if_true] at hns ⊢
+    cases hr : lexRule H .prot s.lex s.decl with
+    | none => rw [hr] at hns; exact absurd rfl hns
+    | some b =>
+      have := lexRule_spec hd hr
+      cases b with
+      | true => simp only [Out.ofCheck, true_iff]; exact this.mp rfl
+      | false =>
+        simp only [Out.ofCheck]
+        constructor
+        · intro h; cases h
+        · intro h; have := this.mpr h; cases this
+  | priv =>
+    simp only [hm, guarded, if_true] at hns ⊢
+    cases hr : lexRule H .priv s.lex s.decl with
+    | none => rw [hr] at hns; exact absurd rfl hns
+    | some b =>
+      have := lexRule_spec hd hr
+      cases b with
+      | true => simp only [Out.ofCheck, true_iff]; exact this.mp rfl
+      | false =>
+        simp only [Out.ofCheck]
+        constructor
+        · intro h; cases h
+        · intro h; have := this.mpr h; cases this
+
+/-- the site of `leak:propRead/this:priv:ancestor`: code of class 1 (ancestor), inherited by and running on an object
+of class 2, reads `$this->p` declared private by class 2 — refused; the declaring class's own code — allowed -/
+example : decide pinned [⟨1, none, []⟩, ⟨2, some 1, []⟩] ⟨.propRead, .this, .priv, some 2, some 1, 2, 2⟩ = .denied ∧
+    decide pinned [⟨1, none, []⟩, ⟨2, some 1, []⟩] ⟨.propRead, .this, .priv, some 2, some 2, 2, 2⟩ = .allowed := by
+  decide
+
+/-- **C07_known_exact_arms.** Whatever table the translator regenerates: if it is within the known findings
+(`TableOK`, the obligation discharged for the regenerated table at the end of this file), then on every arm the
+known findings grade `exact` the decision is PHP's rule. A source change that weakens one of these arms fails
+`C07_table_within_known`; one that keeps them leaves this theorem applicable. (`hc`: an arm that also asks for
+a class context — `self::`, `static::` — is used in class code.) -/
+theorem C07_known_exact_arms (T : Table) (hOK : TableOK T = true) (H : Hier) (s : Site) (hd : NoDangling H)
+    (hk : known s.path s.recv = .exact)
+    (hc : ∀ nc, T s.path s.recv = .lexical true true nc → nc = true → s.ctx.isSome)
+    (hns : decide T H s ≠ .stuck) :
+    decide T H s = .allowed ↔ allowed H s.m s.lex s.decl := by
+  obtain ⟨nc, hT⟩ := TableOK_exact hOK hk
+  exact C07_lexical_exact T H s hd nc hT (hc nc hT) hns
+
+/-! ## the hierarchy test is exact where the context is the lexical class and the target the declaring class
+
+(the shape of the `->` arms before `fixes/C07-1-*`; kept because the theorem is about every table) -/
 
 /-- **C07_hier_exact_partial.** (`C07_paths_agree` for the `->`, dynamic-name and `A::m()` paths, *partial*.)
 Excluded by hypothesis, each a known finding: (1) `ctx = lex` — the code looks at the runtime class of
@@ -126,29 +209,37 @@ theorem C07_hier_exact_partial (T : Table) (H : Hier) (s : Site) (hd : NoDanglin
       · exact absurd hrel (ofCheck_denied hd h1)
       · exact absurd h1 hns
 
-example : decide pinned [⟨1, none, []⟩, ⟨2, some 1, []⟩] ⟨.staticMeth, .other, .prot, some 2, some 2, 2, 1⟩ = .allowed := by
+example : decide pinnedBefore [⟨1, none, []⟩, ⟨2, some 1, []⟩] ⟨.staticMeth, .other, .prot, some 2, some 2, 2, 1⟩ = .allowed := by
   decide
 
-/-- **C07_private_as_protected_counterexample.** Code of a subclass reads a private member of its parent
-through `$o->p`: the pinned decision is `allowed`, PHP's is not. (Replayed as `leak:propRead:priv:descendant`.) -/
+/-- **C07_private_as_protected_counterexample.** (Pre-fix behaviour, repaired by `fixes/C07-1-*`.) Code of a
+subclass reads a private member of its parent through `$o->p`: the decision of the tree as it was is `allowed`,
+PHP's is not. (Was `leak:propRead:priv:descendant`; the replay is kept and must now be refused.) -/
 theorem C07_private_as_protected_counterexample :
-    ¬ ∀ (H : Hier) (s : Site), WfSite H s → decide pinned H s = .allowed → allowed H s.m s.lex s.decl := by
+    ¬ ∀ (H : Hier) (s : Site), WfSite H s → decide pinnedBefore H s = .allowed → allowed H s.m s.lex s.decl := by
   intro h
   have := h [⟨1, none, []⟩, ⟨2, some 1, []⟩] ⟨.propRead, .other, .priv, some 2, some 2, 1, 1⟩
     ⟨fun r hr => ⟨2, rfl, by cases hr; exact Sub.refl 2⟩, fun _ _ => ⟨2, rfl⟩, Sub.refl 1, fun h => by cases h⟩
     (by decide)
   simp [allowed] at this
 
-/-- **C07_runtime_class_counterexample.** A method inherited from an unrelated-to-the-member ancestor, run on
-an object of the declaring class, reaches that class's private member: the test looks at the class of
-`$this`, not at the class whose text contains the access. (Replayed as `leak:propRead:priv:ancestor`.) -/
+/-- **C07_runtime_class_counterexample.** (Pre-fix behaviour, repaired by `fixes/C07-1-*`.) A method inherited
+from an unrelated-to-the-member ancestor, run on an object of the declaring class, reaches that class's private
+member: the test looked at the class of `$this`, not at the class whose text contains the access. (Was
+`leak:propRead:priv:ancestor`.) -/
 theorem C07_runtime_class_counterexample :
-    ¬ ∀ (H : Hier) (s : Site), WfSite H s → decide pinned H s = .allowed → allowed H s.m s.lex s.decl := by
+    ¬ ∀ (H : Hier) (s : Site), WfSite H s → decide pinnedBefore H s = .allowed → allowed H s.m s.lex s.decl := by
   intro h
   have := h [⟨1, none, []⟩, ⟨2, some 1, []⟩] ⟨.propRead, .other, .priv, some 2, some 1, 2, 2⟩
     ⟨fun r hr => ⟨1, rfl, by cases hr; exact Sub.of_ext rfl⟩, fun _ _ => ⟨2, rfl⟩, Sub.refl 2, fun h => by cases h⟩
     (by decide)
   simp [allowed] at this
+
+/-- **C07_repaired_sites_refused.** The two witnesses above, on the table of the repaired tree: refused. -/
+theorem C07_repaired_sites_refused :
+    decide pinned [⟨1, none, []⟩, ⟨2, some 1, []⟩] ⟨.propRead, .other, .priv, some 2, some 2, 1, 1⟩ = .denied ∧
+    decide pinned [⟨1, none, []⟩, ⟨2, some 1, []⟩] ⟨.propRead, .other, .priv, some 2, some 1, 2, 2⟩ = .denied := by
+  decide
 
 /-! ## arms that test nothing -/
 
@@ -229,6 +320,7 @@ class is a known finding (leak) or an over-refusal recorded in notes/C07.md -/
 def Faithful (T : Table) (H : Hier) (s : Site) : Prop :=
   match T s.path s.recv with
   | .unchecked => allowed H s.m s.lex s.decl
+  | .lexical gp gq nc => gp = true ∧ gq = true ∧ (nc = true → s.ctx.isSome)
   | .hier gp gq td =>
     gp = true ∧ gq = true ∧ s.ctx = s.lex ∧ (td = false → s.obj = s.decl) ∧
     (s.m = .priv → s.lex = some s.decl ∨ ¬ ∃ c, s.lex = some c ∧ Related H c s.decl)
@@ -250,6 +342,11 @@ theorem C07_paths_agree_partial (T : Table) (H : Hier) (s : Site) (hd : NoDangli
   | unchecked =>
     rw [hT] at hf
     simp [C07_unchecked_leaks T H s hT, hf]
+  | lexical gp gq nc =>
+    rw [hT] at hf
+    obtain ⟨h1, h2, h3⟩ := hf
+    subst h1; subst h2
+    exact C07_lexical_exact T H s hd nc hT h3 hns
   | hier gp gq td =>
     rw [hT] at hf
     obtain ⟨h1, h2, h3, h4, h5⟩ := hf
@@ -302,8 +399,11 @@ theorem C07_paths_agree_partial (T : Table) (H : Hier) (s : Site) (hd : NoDangli
     rw [hT] at hf
     exact hf.elim
 
-example : C07.Faithful pinned [⟨1, none, []⟩, ⟨2, some 1, []⟩] ⟨.methCall, .other, .prot, some 2, some 2, 1, 1⟩ :=
+example : C07.Faithful pinnedBefore [⟨1, none, []⟩, ⟨2, some 1, []⟩] ⟨.methCall, .other, .prot, some 2, some 2, 1, 1⟩ :=
   ⟨rfl, rfl, rfl, fun _ => rfl, fun h => by cases h⟩
+/-- on the repaired tree every site of a `->` arm is faithful: also code of class 1 inherited by an object of class 2 -/
+example : C07.Faithful pinned [⟨1, none, []⟩, ⟨2, some 1, []⟩] ⟨.methCall, .this, .priv, some 2, some 1, 2, 2⟩ :=
+  ⟨rfl, rfl, fun h => by cases h⟩
 
 /-- **C07_spec_decision_procedure.** `Spec.Access.allowedB` (what the driver answers to `spec` requests, against
 which the harness holds its own Go oracle on every cell) decides `Spec.Access.allowed`. -/
@@ -379,8 +479,10 @@ theorem C07_boundary_exact (H : Hier) (isA : Name → Name → Bool) (hi : ∀ c
   simp only [admits]
   exact accepts_iff hi t v
 
-/-- **C07_boundary_null_partial.** Parameter binding and method return let `null` through whatever the
-declared type is; for every other value they are exact. -/
+/-- **C07_boundary_null_partial.** A boundary of kind `nullAlso` lets `null` through whatever the declared type
+is; for every other value it is exact. (Parameter binding and method return were of this kind before
+`fixes/C07-4-*`, `C07-5-*`; no boundary of the repaired tree is, and `C07_boundaries_within_known` fails the build
+if one becomes so again.) -/
 theorem C07_boundary_null_partial (H : Hier) (isA : Name → Name → Bool)
     (hi : ∀ c n, isA c n = true ↔ IsA H c n) (t : Ty) (v : ValKind) (hv : v ≠ .null) :
     admits isA .nullAlso t v = true ↔ denote H t v := by
@@ -388,16 +490,17 @@ theorem C07_boundary_null_partial (H : Hier) (isA : Name → Name → Bool)
   | null => exact absurd rfl hv
   | _ => simp only [admits]; exact accepts_iff hi _ _
 
-/-- **C07_boundary_null_counterexample.** `function f(int $x)` called with `null` (replayed as
-`type:fnParam:null`, …). -/
+/-- **C07_boundary_null_counterexample.** (Pre-fix behaviour.) `function f(int $x)` called with `null` under a
+`nullAlso` boundary (was `type:fnParam:null`, …; the replays are kept and must now be refused). -/
 theorem C07_boundary_null_counterexample (H : Hier) (isA : Name → Name → Bool) :
     admits isA .nullAlso .int .null = true ∧ ¬ denote H .int .null := by
   refine ⟨rfl, ?_⟩
   intro h
   cases h
 
-/-- **C07_boundary_unchecked_counterexample.** `$o['p'] = "x"` / `A::$p = "x"` for `int $p` (replayed as
-`type:idxStore:nonnull`, `type:staticStore:nonnull`). -/
+/-- **C07_boundary_unchecked_counterexample.** `A::$p = "x"` for `int $p`, a closure declared `: int` returning
+"x" (replayed as `type:staticStore:nonnull`, `type:closureReturn:nonnull`; `$o['p'] = "x"` was of this kind before
+`fixes/C07-6-*`). -/
 theorem C07_boundary_unchecked_counterexample (H : Hier) (isA : Name → Name → Bool) :
     admits isA .unchecked .int .str = true ∧ ¬ denote H .int .str := by
   refine ⟨rfl, ?_⟩
@@ -599,6 +702,47 @@ theorem C07_table_within_known : TableOK Generated.C07Access.table = true := by 
 
 /-- every typed boundary is at least as strict as the known findings say -/
 theorem C07_boundaries_within_known : BoundariesOK Generated.C07Access.boundary = true := by decide
+
+/-- **C07_generated_exact_paths.** For the table regenerated from the source on this run: on the `->`,
+dynamic-name, `unset($o->p)`, `foreach`, `A::m()` arms (any site) and on `self::m()` / `static::m()` (in class
+code) the decision is PHP's rule, whenever the chain walks terminate. -/
+theorem C07_generated_exact_paths (H : Hier) (s : Site) (hd : NoDangling H)
+    (hk : known s.path s.recv = .exact) (hc : s.path = .selfMeth ∨ s.path = .staticKwMeth → s.ctx.isSome)
+    (hns : decide Generated.C07Access.table H s ≠ .stuck) :
+    decide Generated.C07Access.table H s = .allowed ↔ allowed H s.m s.lex s.decl := by
+  obtain ⟨nc, hT⟩ := TableOK_exact C07_table_within_known hk
+  refine C07_lexical_exact _ H s hd nc hT ?_ hns
+  intro hn
+  subst hn
+  by_cases h1 : s.path = .selfMeth ∨ s.path = .staticKwMeth
+  · exact hc h1
+  · -- on every other exact arm the regenerated check does not ask for a class context
+    exfalso
+    have hp : ∀ (p : Path) (r : Recv), known p r = .exact → Generated.C07Access.table p r = .lexical true true true →
+        p = .selfMeth ∨ p = .staticKwMeth := by
+      intro p r
+      cases p <;> cases r <;> decide
+    exact h1 (hp s.path s.recv hk hT)
+
+/-- **C07_generated_exact_boundaries.** For the boundary kinds regenerated on this run: wherever `exact` is what
+is known (everything but `A::$p = v` and closure return types), the boundary admits exactly the denotation of the
+declared type — `null` included. -/
+theorem C07_generated_exact_boundaries (H : Hier) (isA : Name → Name → Bool) (hi : ∀ c n, isA c n = true ↔ IsA H c n)
+    (b : Boundary) (hk : knownBoundary b = .exact) (t : Ty) (v : ValKind) :
+    admits isA (Generated.C07Access.boundary b) t v = true ↔ denote H t v := by
+  rw [BoundariesOK_exact C07_boundaries_within_known hk]
+  exact C07_boundary_exact H isA hi t v
+
+/-- **C07_known_tightened.** The known tables shrank: no arm and no boundary is known worse than before the
+second round of repairs, 23 of the 38 arms and 8 of the 13 boundaries are known strictly better. -/
+theorem C07_known_tightened :
+    (Path.all.all fun p => [Recv.this, Recv.other].all fun r =>
+        (known p r).rank ≤ (knownBefore p r).rank) = true ∧
+    ((Path.all.flatMap fun p => [Recv.this, Recv.other].filter fun r =>
+        (known p r).rank < (knownBefore p r).rank).length) = 23 ∧
+    (Boundary.all.all fun b => BKind.rank (knownBoundary b) ≤ BKind.rank (knownBoundaryBefore b)) = true ∧
+    (Boundary.all.filter fun b => BKind.rank (knownBoundary b) < BKind.rank (knownBoundaryBefore b)).length = 8 := by
+  decide
 
 /-- `new` runs the abstract test and the completeness validation on every call (what `Model.Inst.newRun` and
 the two theorems above about sequences of `new` presume about the glue) -/
